@@ -8,7 +8,6 @@ package main
 // one Content-Length = body length, body bytes.
 
 import (
-	"fmt"
 	"strings"
 	"testing"
 
